@@ -26,6 +26,10 @@ CONSTANTS SortedIteration,    \* TRUE: set-valued steps are lowered in sorted or
                               \* for the table, in the order the database reports its indexes (as
                               \* the code is); FALSE: the tracked state lists a table's indexes in
                               \* an order that depends on the process (a set)
+          NormalizeWhenCapturing,   \* TRUE: parameters are converted to database-native values
+                              \* (booleans to 1 / 0) when the statements are PREPARED, whatever the run does with
+                              \* them (as the code is: SQLExecutor._prepare_sql); FALSE: only when they are executed,
+                              \* so that a capture-only run substitutes the raw Python value
           PreviewPerBatch     \* TRUE: the preview is generated batch by batch, like the execution
                               \* (as repaired, bb71b75); FALSE: per task as a whole (as found)
 
@@ -45,6 +49,10 @@ Entries == {1, 2, 3}
 StepKinds == { [kind |-> "fixed", entries |-> {}], [kind |-> "index", entries |-> {}],
                [kind |-> "merge", entries |-> {}] }
              \cup { [kind |-> "set", entries |-> S] : S \in (SUBSET Entries) \ {{}} }
+             \* "param": a statement with one parameter (the initial value of a column that is filled);
+             \* entries = {class of the value}: 1 a string, 2 an integer, 3 a boolean.  What the statement
+             \* shows / binds is the database-native value: a boolean becomes an integer
+             \cup { [kind |-> "param", entries |-> {c}] : c \in Entries }
              \* "lookup": DROP INDEX of the index found by its column list, when `entries` are the
              \* indexes the table has over exactly those columns (db_index=True next to an
              \* index_together / Meta.indexes entry over the same single column): ONE statement,
@@ -60,8 +68,12 @@ Sorted(S) == IF S = {} THEN <<>>
 
 (* all statement sequences one lowering of a step may produce; `tracked`: indexes the
    database state has at this point *)
-LowerStep(i, st, tracked) ==
+Native(c) == IF c = 3 THEN 2 ELSE c
+LowerStep(i, st, tracked, capturing) ==
     IF st.kind = "fixed" THEN { << <<i, 0>> >> }
+    ELSE IF st.kind = "param"
+         THEN LET c == CHOOSE x \in st.entries : TRUE
+              IN { << <<i, IF capturing /\ ~NormalizeWhenCapturing THEN c ELSE Native(c)>> >> }
     ELSE IF st.kind = "index" THEN (IF i \in tracked THEN { <<>> } ELSE { << <<i, 0>> >> })
     ELSE IF st.kind = "lookup"
          THEN (IF OrderedLookup THEN { << <<i, Sorted(st.entries)[1]>> >> }
@@ -69,35 +81,39 @@ LowerStep(i, st, tracked) ==
     ELSE IF SortedIteration THEN { [k \in 1..Cardinality(st.entries) |-> <<i, Sorted(st.entries)[k]>>] }
     ELSE { [k \in 1..Len(p) |-> <<i, p[k]>>] : p \in Perms(st.entries) }
 
-RECURSIVE LowerAll(_, _, _)
-LowerAll(i, ss, tracked) ==
+RECURSIVE LowerAll(_, _, _, _)
+LowerAll(i, ss, tracked, capturing) ==
     IF ss = <<>> THEN { <<>> }
-    ELSE { a \o b : a \in LowerStep(i, Head(ss), tracked), b \in LowerAll(i + 1, Tail(ss), tracked) }
+    ELSE { a \o b : a \in LowerStep(i, Head(ss), tracked, capturing),
+                    b \in LowerAll(i + 1, Tail(ss), tracked, capturing) }
 (* indexes a lowering run records in the state it works on *)
 Recorded(ss) == { i \in 1..Len(ss) : ss[i].kind = "index" }
 
 (* generation in units: with a boundary after the first step the two parts are lowered
    separately (two adjacent merge steps then give two rebuilds instead of one) *)
 MergePairs(ss) == Len(ss) = 2 /\ ss[1].kind = "merge" /\ ss[2].kind = "merge"
-LowerUnits(ss, tracked, split) ==
+LowerUnits(ss, tracked, split, capturing) ==
     IF split /\ Len(ss) = 2
-    THEN { a \o b : a \in LowerAll(1, <<ss[1]>>, tracked), b \in LowerAll(2, <<ss[2]>>, tracked) }
+    THEN { a \o b : a \in LowerAll(1, <<ss[1]>>, tracked, capturing),
+                    b \in LowerAll(2, <<ss[2]>>, tracked, capturing) }
     ELSE IF MergePairs(ss) THEN { << <<1, 2>> >> }        \* one rebuild for both
-    ELSE LowerAll(1, ss, tracked)
+    ELSE LowerAll(1, ss, tracked, capturing)
 
 Init == /\ steps \in { <<a>> : a \in StepKinds } \cup { <<a, b>> : a \in StepKinds, b \in StepKinds }
         /\ cut \in BOOLEAN
         \* prepare() generates the preview first, on a clone of the state; batch building then
         \* generates what is executed, on the evolver's own state
-        /\ preview \in LowerUnits(steps, {}, cut /\ PreviewPerBatch)
-        /\ exec \in LowerUnits(steps, IF CloneIsolated THEN {} ELSE Recorded(steps), cut)
+        /\ preview \in LowerUnits(steps, {}, cut /\ PreviewPerBatch, TRUE)
+        /\ exec \in LowerUnits(steps, IF CloneIsolated THEN {} ELSE Recorded(steps), cut, FALSE)
 Next == UNCHANGED vars
 Spec == Init /\ [][Next]_vars
 
 (* C14 *)
 PreviewEqualsExecution == preview = exec
-LoweringDeterministic == Cardinality(LowerUnits(steps, {}, cut)) = 1
+LoweringDeterministic == Cardinality(LowerUnits(steps, {}, cut, FALSE)) = 1
 (* the hazard the replay looks for: a set-valued step with two or more entries *)
-HasMultiEntrySet == \E i \in 1..Len(steps) : Cardinality(steps[i].entries) >= 2
+HasMultiEntrySet == \E i \in 1..Len(steps) : steps[i].kind # "param" /\ Cardinality(steps[i].entries) >= 2
+(* the hazard of a capture-only run: a boolean parameter *)
+HasBooleanParameter == \E i \in 1..Len(steps) : steps[i].kind = "param" /\ steps[i].entries = {3}
 NondeterminismOnlyFromSets == (~LoweringDeterministic) => HasMultiEntrySet
 =============================================================================
